@@ -60,6 +60,18 @@ const CATALOGUE: &[Plant] = &[
     Plant { name: "timer value is text", text: "~zt{some%min}", place: 0, dialect: Some(true), kind: "timer-value-text", error: true, parse: false, focus: "some" },
     Plant { name: "timer unit unknown", text: "~zt{5%zfoo}", place: 0, dialect: Some(true), kind: "timer-unit-unknown", error: true, parse: false, focus: "zfoo" },
     Plant { name: "timer unit not time", text: "~zt{5%kg}", place: 0, dialect: Some(true), kind: "timer-unit-not-time", error: true, parse: false, focus: "kg" },
+    Plant { name: "timer without unit (separator but empty unit)", text: "~zt{5%}", place: 0, dialect: None, kind: "timer-missing-unit", error: true, parse: true, focus: "{5%}" },
+    Plant { name: "timer without unit (unnamed, blank unit)", text: "~{5% }", place: 0, dialect: None, kind: "timer-missing-unit", error: true, parse: true, focus: "{5% }" },
+    Plant { name: "empty unit warning", text: "@zq{5%}", place: 0, dialect: None, kind: "empty-unit", error: false, parse: true, focus: "%" },
+    Plant { name: "text value in reference", text: "@zqq{1%g} and @&zqq{some}", place: 0, dialect: Some(true), kind: "text-value-in-ref", error: false, parse: false, focus: "some" },
+    Plant { name: "incompatible units in reference", text: "@zqq{1%l} and @&zqq{2%kg}", place: 0, dialect: Some(true), kind: "incompatible-units", error: false, parse: false, focus: "kg" },
+    Plant { name: "redundant new", text: "@+zq{}", place: 0, dialect: Some(true), kind: "redundant-new", error: false, parse: false, focus: "+" },
+    Plant { name: "unknown config key", text: ">> [zz]: 1", place: 1, dialect: Some(true), kind: "config-unknown-key", error: false, parse: false, focus: "[zz]" },
+    Plant { name: "text in components mode", text: ">> [mode]: components\n\nsome words @zq{}\n\n>> [mode]: all", place: 1, dialect: Some(true), kind: "text-in-components-mode", error: false, parse: false, focus: "some words" },
+    Plant { name: "component in text mode", text: ">> [mode]: text\n\nadd @zq{} now\n\n>> [mode]: all", place: 1, dialect: Some(true), kind: "component-in-text-mode:ingredient", error: false, parse: false, focus: "@zq{}" },
+    Plant { name: "note on timer", text: "~zt{5%min}(note)", place: 0, dialect: None, kind: "note-not-allowed:timer", error: false, parse: true, focus: "(note)" },
+    Plant { name: "unsupported time value", text: ">> time: soon", place: 1, dialect: Some(true), kind: "std-unsupported-value", error: false, parse: false, focus: "soon" },
+    Plant { name: "time overridden", text: ">> prep time: 5 min\n>> time: 10 min", place: 1, dialect: Some(true), kind: "time-overridden", error: false, parse: false, focus: "prep time: 5 min" },
     Plant { name: "malformed front matter", text: "---\nza: [\n---\n", place: 2, dialect: None, kind: "other:", error: true, parse: false, focus: "za: [\n" },
 ];
 
@@ -91,7 +103,8 @@ pub fn run(ctx: &mut Ctx) {
         for _ in 0..per {
             let extended = p.dialect.unwrap_or_else(|| rng.chance(1, 2));
             let mut r = wf::generate(&mut rng, extended);
-            if p.place == 2 { r.front = None; }
+            // a `>>` entry with an ordinary key is only read when the recipe has no front matter
+            if p.place == 2 || (p.text.starts_with(">> ") && !p.text.starts_with(">> [")) { r.front = None; }
             let marker = "\u{1}PLANT\u{1}";
             match p.place {
                 0 => {
@@ -133,4 +146,15 @@ pub fn run(ctx: &mut Ctx) {
             }
         }
     }
+    // the shared input stream (soups, structured recipes, reference/mode/metadata scenarios, mutations): every
+    // diagnostic with all labels is compared with the model, and the validity clauses are evaluated on every result
+    let mut n = 0u64;
+    crate::props::c04::inputs(ctx, 0xC07, &mut |ctx, s, e| {
+        n += 1;
+        let conv = (n % 2) as u8;
+        if let Some(res) = recipe_case(ctx, s, e, conv) {
+            for d in res.report().iter() { let k = diag_kind(d); ctx.count(&format!("stream:{}", if k.starts_with("other:") { "other (YAML / validator messages)" } else { &k })); }
+            check_validity(ctx, &res, &format!("ext={e} conv={conv} input={s:?}"));
+        }
+    });
 }
